@@ -697,6 +697,10 @@ impl LpgStore {
             drop(nodes); // Release lock before removing properties
             drop(index);
             drop(node_labels);
+            // Take the node out of the property indexes while its values can still be read
+            for (key, _) in self.node_properties.get_all(id) {
+                self.update_property_index_on_remove(id, &key);
+            }
             self.node_properties.remove_all(id);
 
             // Note: Caller should use delete_node_edges() first if detach is needed
@@ -744,6 +748,10 @@ impl LpgStore {
             drop(versions);
             drop(label_index);
             drop(node_labels);
+            // Take the node out of the property indexes while its values can still be read
+            for (key, _) in self.node_properties.get_all(id) {
+                self.update_property_index_on_remove(id, &key);
+            }
             self.node_properties.remove_all(id);
 
             true
